@@ -72,7 +72,7 @@ def make_jobs(ctx: Ctx, count: int, lind: bool = False) -> list[dict]:
         jobs.append({
             "id": i + 1, "seq": spec, "dt": dt, "tol": rng.choice([1e-6, 1e-8, 1e-10, 1e-12]), "default_times": default, "obs": obs,
             "modulation": modulation, "init": "random" if i % 6 == 5 else None, "noise": None, "seed": ctx.seed * 100003 + i,
-            "ct": (n <= 5 and dur <= 60 and not modulation),
+            "ct": (n <= 5 and dur <= 60 and not modulation), "twice": (i % 9 == 4),
             "strata": {"n": n, "wf": wf, "phase": phase, "dmm": dmm, "slm": slm, "mod": modulation, "dt": dtk, "eval": evk},
         })
     return jobs
@@ -126,7 +126,12 @@ def evaluate(ctx: Ctx, jobs: list[dict], results: list[dict], label: str) -> Non
         v = verdicts[tr["id"]]
         if v[0] == "REJECT":
             job, r = meta[tr["id"]]
-            ctx.violation(f"{label}:{v[2]}", f"trace of a real emu-sv run rejected by SVRunTrace at event {v[1]}: {v[2]} (strata {job['strata']}, margins {r['margins']})",
+            key = f"{label}:{v[2]}"
+            if v[2] == "state-differs-from-exact-evolution" and job["tol"] <= 1e-11 and r["margins"].get("state", 0) < 200:
+                # error class: a few 1e-11 .. 1e-9 absolute at tolerances below what torch.linalg.matrix_exp delivers on the
+                # small Krylov matrices (root cause shared with C07); anything larger keeps the generic key
+                key += ":tol<=1e-11:abs-error<2e-9"
+            ctx.violation(key, f"trace of a real emu-sv run rejected by SVRunTrace at event {v[1]}: {v[2]} (strata {job['strata']}, margins {r['margins']})",
                           {"job": job, "event_index": v[1], "margins": r["margins"]})
     ctx.coverage[f"worst_margin_{label}"] = {k: round(v, 4) for k, v in worst.items()}
 
